@@ -203,9 +203,16 @@ impl Hist for C18 {
         }
         let mut faults_run = 0u64;
         for k in 0..n {
-            for fault in [Fault::Once(k), Fault::From(k)] {
-                let fname = format!("fault {:?}", fault);
+            for (fault, kind) in [(Fault::Once(k), 0u8), (Fault::From(k), 0), (Fault::Once(k), 1), (Fault::Once(k), 2), (Fault::Once(k), 3)] {
+                crate::term::set_fault_kind(kind);
+                let fname = format!("fault {:?} kind {}", fault, ["Other", "Interrupted", "WouldBlock", "BrokenPipe"][kind as usize]);
+                crate::util::watch("C18", "hang: a call never returns after a terminal fault (lock taken twice / deadlock)", &self.config(), {
+                    let mut h = shown.clone();
+                    h.push(fname.clone());
+                    h
+                }, 10.0);
                 let (obs, p, e, _, injected) = self.execute(hist, fault);
+                crate::util::unwatch();
                 faults_run += 1;
                 if let Some((i, p)) = p {
                     let class = if p.contains("PoisonError") { format!("poisoned: a later call panics on a poisoned lock: {}", panic_class(&p)) } else { format!("panic: a terminal fault makes a call panic: {}", panic_class(&p)) };
@@ -228,6 +235,7 @@ impl Hist for C18 {
                 }
             }
         }
+        crate::term::set_fault_kind(0);
         stats.bump("fault_points", n as u64);
         stats.evaluations += faults_run; // every faulty execution is a complete real execution
         stats.outcomes.insert(hash_of(&(n, &obs0.last().map(|o| o.a.clone()))));
